@@ -290,8 +290,15 @@ class SimBroker(AsyncBroker):
             if ackable:
                 d.obj = AckableMessage(data=d.raw, ack=w.make_ack(d))
             else:
-                d.obj = _DBytes(d.raw)
-            w.by_obj[id(d.obj)] = d
+                # payloads of 0 or 1 bytes are handed over as the interpreter's own (shared, interned) bytes objects, as a real
+                # transport would produce them; longer ones as distinct objects
+                d.obj = _DBytes(d.raw) if len(d.raw) > 1 else bytes(d.raw)
+            if type(d.obj) is bytes:
+                # a shared (interned) bytes object: several deliveries may be the very same object; they are handed to callback()
+                # in the order in which they were taken
+                w.shared_obj.setdefault((self.worker, self.gen, id(d.obj)), []).append(d)
+            else:
+                w.by_obj[id(d.obj)] = d
             w.rec("take", d.id, k=d.k, w=self.worker, ackable=ackable)
             yield d.obj
 
@@ -476,6 +483,9 @@ class RecReceiver(Receiver):
     async def callback(self, message: Any, raise_err: bool = False) -> None:  # type: ignore[override]
         w = self.world
         dl = w.by_obj.get(id(message))
+        skey = (getattr(self.broker, "worker", None), getattr(self.broker, "gen", 0), id(message))
+        if dl is None and w.shared_obj.get(skey):
+            dl = w.shared_obj[skey].pop(0)
         d = dl.id if dl is not None else None
         DELIVERY.set(d)
         w.rec("cb_enter", d)
@@ -619,6 +629,7 @@ class World:
         self.attempts: Dict[Any, int] = {}
         self.attempt_of: Dict[int, int] = {}
         self.by_obj: Dict[int, Delivery] = {}
+        self.shared_obj: Dict[Any, List[Delivery]] = {}
         self.taken: Dict[Any, List[Delivery]] = {}
         self.store: Dict[str, Any] = {}
         self.store_log: List[Any] = []
